@@ -24,7 +24,8 @@ THEOREMS = [P + t for t in (
     "closure_one_pass_counterexample",
     "arm_untouched", "arm_untouched_needs_fresh", "store_run_is_genAdm",
     "rekey_only_key", "rekey_ok_all", "rekey_partition_ok", "rekey_partition_entry",
-    "rekey_compose", "rekey_present_key_id", "rekey_twice_same", "rekey_there_and_back")] + [
+    "rekey_compose", "rekey_present_key_id", "rekey_twice_same", "rekey_there_and_back", "rekey_store_frame",
+    "closure_in_partition", "holder_in_partition_unique")] + [
     # the loop of the repaired generate_adms: termination bound and closedness (Proofs/Lemmas/C13Closure.lean)
     "FimVerif.Arm.linkClose_closed", "FimVerif.Arm.linkClose_sound", "FimVerif.Arm.linkClose_reach"]
 TRUSTED_BASE = [
@@ -504,6 +505,7 @@ def run_impl(c):
             rd["store_after"] = {x: norm(L.snapshot(g, x)) for x in L.store_graph_ids(imp)}
         if (k == 0 or k == nrounds - 1) and c.get("rekey", True):
             rd["rekey"] = {}
+            rd["store_pre_rekey"] = {x: norm(L.snapshot(g, x)) for x in L.store_graph_ids(imp)}
             for i, (d, a) in enumerate(sorted(adms.items())):
                 if a.graph_id == arm_id:
                     continue
@@ -517,6 +519,7 @@ def run_impl(c):
                         raised = err_kind(e)
                     steps.append([x or a.graph_id, raised, L.snapshot(adm)])
                 rd["rekey"][d] = steps
+            rd["store_post_rekey"] = {x: norm(L.snapshot(g, x)) for x in L.store_graph_ids(imp)}
         if own:
             break
         if not c.get("fresh", True):
@@ -577,7 +580,7 @@ _RUNS = []      # (case, result) of the correspondence, re-checked by the oracle
 
 def correspondence(ctx, res):
     rng = ctx.sub_rng("corr")
-    cases = gen_cases(ctx, rng, ctx.scale(8, 120), ctx.scale(2400, 14000))
+    cases = gen_cases(ctx, rng, ctx.scale(8, 60), ctx.scale(2400, 14000))
     reqs, expect, meta = [], [], []
     del _RUNS[:]
 
@@ -631,6 +634,12 @@ def correspondence(ctx, res):
                     cur = x if not raised else cur
                 if c["guids"] == "named":
                     res.count("rekey:delegation-named-after-graph-id")
+            # 4. the same chains as operations on the store: every other graph (ARM, other partitions, bystander) must come out unchanged
+            if rd.get("rekey") and "store_pre_rekey" in rd:
+                chains = [[rd["same"]["adm_ids"][d], [x for x, _, _ in steps]] for d, steps in sorted(rd["rekey"].items())]
+                add(["rekeys_store", [[x, to_wire(s_)] for x, s_ in sorted(rd["store_pre_rekey"].items())], chains],
+                    ["ok", {rd["same"]["adm_ids"][d]: [bool(raised) for _, raised, _ in steps] for d, steps in rd["rekey"].items()},
+                     rd["store_post_rekey"]], c)
     # rekey on graphs that are not partitions (several entries / none): the raising path, twice in a row
     for i in range(ctx.scale(20, 250)):
         w = raw_case(rng, rng.randint(1, 5))
@@ -676,6 +685,8 @@ def canon_reply(op, mj):
         return ["ok", mj[1], from_wire(mj[2])]
     if op == "rekeys":
         return ["ok", [[r, from_wire(g)] for r, g in mj[1]]]
+    if op == "rekeys_store":
+        return ["ok", {x: r for x, r in mj[1]}, {x: from_wire(g) for x, g in mj[2]}]
     if op == "adms_store":
         return ["ok", {d: x for d, x in mj[1]}, {x: from_wire(g) for x, g in mj[2]}]
     return mj
@@ -713,6 +724,9 @@ def check_one_partition(A, p, arm_id, arm_after, res, case, tag):
     def bad(sig, what, **kw):
         res.violation("C13:" + sig, what + tag, case, **kw)
     if "error" in p:
+        if not A["nodes"] and p["error"] == "query":
+            res.count("empty-model:query-exception")     # a model without nodes is refused by design (the Lean model: `none`), nothing to partition
+            return
         bad("generate_adms:raises:%s:%s" % (p["error"], p["where"]),
             "generate_adms raised %s in %s on an annotated model: %s" % (p["error"], p["where"], p.get("msg")))
         if norm(arm_after) != A:
@@ -834,12 +848,20 @@ def check_run(c, r, res):
                                   "the ARM object that partitioned before gives other partitions than a fresh wrapper of the same model" + tag, case)
         for d, steps in rd.get("rekey", {}).items():
             check_rekey_chain(rd["same"]["adms"][d], steps, res, case, tag)
+        if rd.get("rekey") and "store_pre_rekey" in rd:
+            rekeyed = {rd["same"]["adm_ids"][d] for d in rd["rekey"]}
+            pre, post = rd["store_pre_rekey"], rd["store_post_rekey"]
+            for x in sorted(set(pre) | set(post)):
+                if x not in rekeyed and pre.get(x) != post.get(x):
+                    res.violation("C13:rekey_only_key:other-graph-changed",
+                                  "re-keying the partitions changed another graph of the store (%s)%s"
+                                  % ("the ARM" if x == r["arm_id"] else "graph " + x, tag), case, observed=x)
 
 
 def oracle(ctx, res, n=None, nsynth=None):
     rng = ctx.sub_rng("oracle")
     runs = list(_RUNS) if n is None else []
-    cases = gen_cases(ctx, rng, n or ctx.scale(4, 80), nsynth or ctx.scale(1500, 10000))
+    cases = gen_cases(ctx, rng, n or ctx.scale(4, 30), nsynth or ctx.scale(1500, 10000))
     if runs:
         cases = [c for c in cases if c["kind"] in ("gen", "synth") or c.get("name", "").startswith("rand")]   # corners/corpus were run already
     t0 = time.time()
